@@ -135,6 +135,7 @@ def run_case(case):
     violations = []
     log = []  # (step index, kind, info)
     dead = []  # (step index, transport id) of transports kept after close() although their loop is closed
+    close_errors = []
 
     def open_count():
         return len(net.open_transports())
@@ -156,7 +157,10 @@ def run_case(case):
                 proto.keep_alive = not proto.keep_alive
                 log.append((i, "toggle", None))
             elif s["op"] == "close":
-                await proto.close()
+                try:
+                    await proto.close()
+                except Exception as e:  # noqa - close() that raises is an outcome of the library, not of the harness
+                    close_errors.append((i, repr(e)))
                 log.append((i, "close", open_count()))
                 # after close() the object must not hold on to a transport whose event loop is closed: such a
                 # transport's close() cannot complete (call_soon raises), its socket is released only when the last
@@ -210,6 +214,8 @@ def run_case(case):
             pass
     if status != "ok":
         violations.append(viol(f"C10:hang:{tr}", f"history did not terminate: {status}"))
+    if close_errors:
+        violations.append(viol(f"C10:close-raised:{tr}", f"close() at step {close_errors[0][0]} raised {close_errors[0][1]}"))
     if dead:
         violations.append(viol(f"C10:open-after-close:{tr}:dead-transport-kept",
                                f"after close() at step {dead[0][0]} the object still holds transport #{dead[0][1]}, which "
